@@ -18,7 +18,7 @@ pub fn run(k: &str, c: &Value) -> Value {
     match k {
         "c07.curve" => {
             let curve = match Curve2::from_points(&p2s(&c["ref"]), 1e-8, true) { Ok(c) => c, Err(_) => return json!({"err_curve": true}) };
-            let pts: Vec<Point2> = fxs(&c["fs"]).iter().filter_map(|f| curve.at_fraction(*f).map(|s| s.point())).collect();
+            let pts: Vec<Point2> = if !c["pts"].is_null() { p2s(&c["pts"]) } else { fxs(&c["fs"]).iter().filter_map(|f| curve.at_fraction(*f).map(|s| s.point())).collect() };
             // "pre": a further rigid motion of the scanned points, undone in the guess: the guess stays as close to the answer
             let pre = if c["pre"].is_null() { Iso2::identity() } else { iso2(&c["pre"]) };
             let disp = pre * iso2(&c["disp"]);
